@@ -290,3 +290,20 @@ def set_marks(node: ast.AST) -> List[Tuple[str, ast.AST]]:
                 and isinstance(x.value.left, ast.Name) and x.value.left.id == x.targets[0].id:
             out.append((x.targets[0].id, x))
     return out
+
+
+def argv(c: ast.Call, i: int, name: str) -> Optional[ast.expr]:
+    """the argument bound to the i-th parameter `name` of a call, whether it was passed positionally or by keyword
+    (the loader rewrites calls of repository functions to keyword form)"""
+    v = kw(c, name)
+    if v is not None:
+        return v
+    if i < len(c.args) and not any(isinstance(a, ast.Starred) for a in c.args[: i + 1]):
+        return c.args[i]
+    return None
+
+
+def allargs(c: ast.Call) -> List[ast.expr]:
+    """argument values in signature order: the loader rewrites calls of repository functions to keyword form (keywords
+    sorted by parameter position), library calls keep their positional arguments"""
+    return list(c.args) + [k.value for k in c.keywords if k.arg is not None]
